@@ -22,6 +22,20 @@ pub struct MethodContext {
 impl MethodContext {
     /// 新規に[MethodContext]を生成する
     pub fn new(dictionary: Arc<Mutex<ChokanDictionary>>, user_pref: Arc<Mutex<UserPref>>) -> Self {
+        // verification hook: the clock is read from a file when CHOKAN_VERIF_NOW_FILE is set
+        #[cfg(chokan_verif)]
+        if let Ok(path) = std::env::var("CHOKAN_VERIF_NOW_FILE") {
+            return MethodContext {
+                dictionary: dictionary.clone(),
+                user_pref: user_pref.clone(),
+                now: Arc::new(move || {
+                    std::fs::read_to_string(&path)
+                        .ok()
+                        .and_then(|v| v.trim().parse::<i64>().ok())
+                        .unwrap_or(0)
+                }),
+            };
+        }
         MethodContext {
             dictionary: dictionary.clone(),
             user_pref: user_pref.clone(),
